@@ -4,6 +4,7 @@ package pgen
 
 import (
 	"fmt"
+	"strings"
 
 	pbsubstreams "github.com/streamingfast/substreams/pb/sf/substreams/v1"
 	"pgregory.net/rapid"
@@ -159,7 +160,18 @@ func Gen(t *rapid.T, o Opts) Prog {
 
 // GenChain draws a program whose stores form a chain of `depth` stages (each store reads the previous one)
 // below an output mapper: the shape with the most scheduling dependencies per segment.
+// ChainOpts tunes GenChainOpts.
+type ChainOpts struct {
+	Late     []uint64 // candidate initial blocks of a late lowest stage (1 case in 3)
+	Siblings bool     // every stage has a second store
+}
+
 func GenChain(t *rapid.T, depth int, inits []uint64, late ...uint64) Prog {
+	return GenChainOpts(t, depth, inits, ChainOpts{Late: late})
+}
+
+func GenChainOpts(t *rapid.T, depth int, inits []uint64, o ChainOpts) Prog {
+	late := o.Late
 	g := gdsl.Graph{}
 	kindsAll := sdsl.AllKinds()
 	prev := ""
@@ -170,7 +182,7 @@ func GenChain(t *rapid.T, depth int, inits []uint64, late ...uint64) Prog {
 		if prev != "" {
 			m.Inputs = append(m.Inputs, gdsl.In{T: "store", Ref: prev, Mode: rapid.SampledFrom([]string{"get", "get", "deltas"}).Draw(t, "chainmode")})
 		}
-		if rapid.IntRange(0, 3).Draw(t, "sibling") == 0 {
+		if o.Siblings || rapid.IntRange(0, 3).Draw(t, "sibling") == 0 {
 			// a second store in the same stage
 			sb := gdsl.Mod{Name: fmt.Sprintf("side_%d", i), Kind: "store", Policy: "set", VType: "string", Initial: rapid.SampledFrom(inits).Draw(t, "sideinit"),
 				Inputs: []gdsl.In{{T: "source", Ref: gdsl.BlockType}}}
@@ -195,6 +207,11 @@ func GenChain(t *rapid.T, depth int, inits []uint64, late ...uint64) Prog {
 	}
 	out := gdsl.Mod{Name: "out", Kind: "map", Initial: rapid.SampledFrom(inits).Draw(t, "outinit"),
 		Inputs: []gdsl.In{{T: "source", Ref: gdsl.ClockType}, {T: "store", Ref: prev, Mode: rapid.SampledFrom([]string{"get", "deltas"}).Draw(t, "outmode")}}}
+	for _, m := range g.Mods {
+		if strings.HasPrefix(m.Name, "side_") {
+			out.Inputs = append(out.Inputs, gdsl.In{T: "store", Ref: m.Name, Mode: "get"}) // the second store of a stage is used too
+		}
+	}
 	g.Mods = append(g.Mods, out)
 	for i := range g.Mods {
 		g.Mods[i].Entry = g.Mods[i].Name
